@@ -3,11 +3,11 @@ package main
 // C16 - message and transaction identity hashes.
 //
 // Kinds:
-//   c16.msg (dag root tab0 tab1) -> 'err | (kind hash normhash init bodyref bodybits nbodyrefs src dest)
+//   c16.msg (dag root) -> 'err | (kind hash normhash init bodyref bodybits nbodyrefs src dest)
 //   c16.htx / c16.hmsg ((source...) (op...)) -> (result per op): a HISTORY on one tlb.Transaction /
 //            tlb.Message variable: (0 i hasher) decode source i into it, (1) Hash(), (2 mutate) SourceBoc() /
 //            Hash(true) (mutate: the caller then overwrites the returned slice), (3) go on with a copy
-//   c16.tx  (dag root tab0 tab1) -> 'err | (hash (inmsg-hash inmsg-normhash)? (sourceboc parses-back))
+//   c16.tx  (dag root) -> 'err | (hash (inmsg-hash inmsg-normhash)? (sourceboc parses-back))
 // Every case is decoded twice by the real tlb package: tlb.Unmarshal (no hasher)
 // and tlb.NewDecoder() (caching hasher, cache warmed with other cells of the
 // same DAG); the two results must be equal.  Property oracles evaluated inside
@@ -19,6 +19,7 @@ import (
 	"fmt"
 	"os"
 	"path/filepath"
+	"math/bits"
 	"reflect"
 	"sort"
 	"strings"
@@ -33,6 +34,7 @@ import (
 func init() {
 	execs["c16.msg"] = execC16Msg
 	execs["c16.tx"] = execC16Tx
+	execs["c16.lib"] = execC16Lib
 	execs["c16.htx"] = execC16HistTx
 	execs["c16.hmsg"] = execC16HistMsg
 	gens["C16"] = genC16
@@ -120,7 +122,21 @@ func c16MsgView(m *tlb.Message, srcHash []byte) sx.V {
 	}
 	body := boc.Cell(m.Body.Value)
 	return sx.L(sx.Nat(kind), sx.Bytes(h0[:]), sx.Bytes(hn[:]), sx.Nat(init), sx.B(m.Body.IsRight),
-		sx.Bits(c16CellBits(&body)), sx.Nat(body.RefsSize()), srcV, destV)
+		sx.Bits(c16CellBits(&body)), sx.Nat(body.RefsSize()), srcV, destV, c16DestNow(m))
+}
+
+// c16DestNow: the destination as the Message value holds it at this moment
+// (Hash(true) clears the anycast of an addr_std destination in the receiver).
+func c16DestNow(m *tlb.Message) sx.V {
+	switch m.Info.SumType {
+	case "IntMsgInfo":
+		return c16AddrBits(m.Info.IntMsgInfo.Dest)
+	case "ExtInMsgInfo":
+		return c16AddrBits(m.Info.ExtInMsgInfo.Dest)
+	case "ExtOutMsgInfo":
+		return c16AddrBits(m.Info.ExtOutMsgInfo.Dest)
+	}
+	return sx.A("none")
 }
 
 func c16DecodeMsg(dag []Node, root int, withHasher bool) sx.V {
@@ -143,6 +159,55 @@ func c16DecodeMsg(dag []Node, root int, withHasher bool) sx.V {
 		return c16Fail("decoded-unhashable-cell")
 	}
 	return c16MsgView(&m, srcHash)
+}
+
+// c16.lib (dag root target): the root is decoded by a Decoder with a library
+// resolver that answers every request with cell [target]; with and without the
+// hasher.  Oracle: the resolver is asked for the hash of the library root, and
+// the reported hash is the hash of the cell it returned.
+func c16DecodeLib(dag []Node, root, target int, withHasher bool) sx.V {
+	ref, err := buildGo(dag)
+	if err != nil {
+		return sx.A("build-err")
+	}
+	rootHash, _ := ref[root].Hash()
+	srcHash, _ := ref[target].Hash()
+	if !ref[root].IsLibrary() {
+		srcHash = rootHash
+	}
+	cells, _ := buildGo(dag)
+	dec := new(tlb.Decoder)
+	if withHasher {
+		dec = tlb.NewDecoder()
+	}
+	asked := 0
+	wrong := false
+	dec = dec.WithLibraryResolver(func(h tlb.Bits256) (*boc.Cell, error) {
+		asked++
+		if !bytes.Equal(h[:], rootHash) {
+			wrong = true
+		}
+		return cells[target], nil
+	})
+	var m tlb.Message
+	if err := dec.Unmarshal(cells[root], &m); err != nil {
+		return sx.A("err")
+	}
+	if wrong || (ref[root].IsLibrary() && asked != 1) || (!ref[root].IsLibrary() && asked != 0) {
+		return c16Fail("resolver-not-asked-for-the-root-hash")
+	}
+	return c16MsgView(&m, srcHash)
+}
+
+func execC16Lib(in sx.V) sx.V {
+	dag := dagFromSx(in.List[0])
+	root, target := in.List[1].I(), in.List[2].I()
+	a := c16DecodeLib(dag, root, target, false)
+	b := c16DecodeLib(dag, root, target, true)
+	if a.String() != b.String() {
+		return c16Fail("hasher-changes-result")
+	}
+	return a
 }
 
 func execC16Msg(in sx.V) sx.V {
@@ -414,11 +479,13 @@ func execC16HistMsg(in sx.V) sx.V {
 		case 3:
 			cp := new(tlb.Message)
 			*cp = *cur
-			if cp.Hash(false) != cur.Hash(false) || cp.Hash(true) != cur.Hash(true) {
+			if cp.Hash(false) != cur.Hash(false) {
 				return c16Fail("copy-reports-other-hash")
 			}
 			cur = cp
 			out = append(out, sx.A("copy"))
+		case 4:
+			out = append(out, c16DestNow(cur))
 		}
 	}
 	return sx.L(out...)
@@ -539,6 +606,52 @@ func (b *c16Builder) dictRef(r *prng.R, mode, kind int, pool int) int {
 		return b.add(c16PrunedNode(r))
 	case 3:
 		return b.add(c16LibraryNode(r))
+	case 5: // two leaves under a fork: root label = common prefix of k bits, children carry the rest
+		n := 32
+		if kind == 1 {
+			n = 256
+		}
+		k := r.Pick([]int{0, 0, 1, 2, 7, r.Intn(n - 1)})
+		prefix := randBits(r, k)
+		var root string
+		switch r.Intn(3) {
+		case 0:
+			root = "0" + strings.Repeat("1", k) + "0" + prefix // hml_short
+		case 1:
+			root = "10" + c16U(uint64(k), bits.Len(uint(n))) + prefix // hml_long
+		default:
+			if k > 0 && strings.Count(prefix, prefix[:1]) == k {
+				root = "11" + prefix[:1] + c16U(uint64(k), bits.Len(uint(n))) // hml_same
+			} else {
+				root = "10" + c16U(uint64(k), bits.Len(uint(n))) + prefix
+			}
+		}
+		rem := n - k - 1
+		leaf := func() int {
+			lbl := "10" + c16U(uint64(rem), bits.Len(uint(rem))) + randBits(r, rem)
+			if rem == 0 {
+				lbl = "00"
+			}
+			if kind == 0 {
+				l := r.Intn(4)
+				return b.add(Node{Bits: lbl + c16U(uint64(l), 5) + hexBits(r.Bytes(l))})
+			}
+			idx := b.add(Node{Bits: lbl + c16U(uint64(r.Intn(2)), 1)})
+			if pool > 0 {
+				b.front[idx].Refs = []int{c16PoolRef(r.Intn(pool))}
+			} else {
+				b.front[idx].Refs = []int{b.add(Node{})}
+			}
+			return idx
+		}
+		idx := b.add(Node{Bits: root})
+		l0, l1 := leaf(), leaf()
+		if r.Chance(10) { // a fork with one branch only: not enough refs
+			b.front[idx].Refs = []int{l0}
+		} else {
+			b.front[idx].Refs = []int{l0, l1}
+		}
+		return idx
 	case 4: // junk: random bits, or a well-formed label followed by a truncated value
 		if r.Bool() {
 			if kind == 0 {
@@ -823,7 +936,7 @@ func c16RandSpec(r *prng.R, pool int) c16Spec {
 	sp.Grams, sp.IhrFee, sp.FwdFee = c16Grams(r, 8), c16Grams(r, 8), c16Grams(r, 8)
 	sp.ImportFee = c16Grams(r, 15)
 	if r.Chance(25) {
-		sp.Extra = 1
+		sp.Extra = r.Pick([]int{1, 1, 5})
 	}
 	sp.Lt, sp.At = r.U64(), uint32(r.U64())
 	sp.InitMode = r.Pick([]int{0, 0, 1, 2})
@@ -854,7 +967,7 @@ func c16RandInit(r *prng.R, pool int) c16Init {
 		in.Data = r.Intn(pool)
 	}
 	if r.Chance(20) {
-		in.Lib = 1
+		in.Lib = r.Pick([]int{1, 1, 5})
 	}
 	return in
 }
@@ -1043,62 +1156,13 @@ func c16BlockFiles() []string {
 // ---------------------------------------------------------------- generator
 
 func c16Class(out sx.V) string {
-	if out.K == sx.KL && len(out.List) == 9 {
+	if out.K == sx.KL && len(out.List) == 10 {
 		return fmt.Sprintf("k%d/i%d", out.List[0].I(), out.List[3].I())
 	}
 	return "-"
 }
 
-// c16DictTables runs tongo's own dictionary decoder (C05's subject, not
-// transcribed in the C16 model) on every cell of the DAG: bit i of table k says
-// whether cell i is accepted as the root of a Hashmap 32 (VarUInteger 32) (k=0)
-// or a Hashmap 256 SimpleLib (k=1).  The model uses the tables as its oracle.
-func c16DictTables(dag []Node) (string, string) {
-	cells, err := buildGo(dag)
-	if err != nil {
-		z := strings.Repeat("0", len(dag))
-		return z, z
-	}
-	try := func(f func() error) (ok bool) {
-		defer func() {
-			if recover() != nil {
-				ok = false
-			}
-		}()
-		return f() == nil
-	}
-	var t0, t1 strings.Builder
-	for _, c := range cells {
-		c := c
-		c.ResetCounters()
-		ok0 := try(func() error {
-			var hm tlb.Hashmap[tlb.Uint32, tlb.VarUInteger32]
-			return tlb.Unmarshal(c, &hm)
-		})
-		c.ResetCounters()
-		ok1 := try(func() error {
-			var hm tlb.Hashmap[tlb.Bits256, tlb.SimpleLib]
-			return tlb.Unmarshal(c, &hm)
-		})
-		c.ResetCounters()
-		for _, p := range []struct {
-			ok bool
-			sb *strings.Builder
-		}{{ok0, &t0}, {ok1, &t1}} {
-			if p.ok {
-				p.sb.WriteByte('1')
-			} else {
-				p.sb.WriteByte('0')
-			}
-		}
-	}
-	return t0.String(), t1.String()
-}
-
-func c16Input(dag []Node, root int) sx.V {
-	t0, t1 := c16DictTables(dag)
-	return sx.L(dagSx(dag), sx.Nat(root), sx.Bits(t0), sx.Bits(t1))
-}
+func c16Input(dag []Node, root int) sx.V { return sx.L(dagSx(dag), sx.Nat(root)) }
 
 func (g *c16Gen) emit(kind string, dag []Node, root int, class string) sx.V {
 	in := c16Input(dag, root)
@@ -1141,7 +1205,7 @@ func c16Pool(r *prng.R) []Node {
 }
 
 func c16NormOf(out sx.V) (string, bool) {
-	if out.K == sx.KL && len(out.List) == 9 {
+	if out.K == sx.KL && len(out.List) == 10 {
 		return out.List[2].String(), true
 	}
 	return "", false
@@ -1265,7 +1329,7 @@ func (g *c16Gen) synthetic(n int) {
 				}
 				in := c16Input(d, 0)
 				out := g.emit("c16.msg", d, 0, fmt.Sprintf("same%d/%s", j, u))
-				if nv, okv := c16NormOf(out); !okv || nv != n0 {
+				if nv, okv := c16NormOf(out); okv && nv != n0 { // (a variant may draw an invalid dictionary and not decode)
 					g.c.Fail("c16.msg", in, "C16/normalized-class", fmt.Sprintf("variant same%d changed the normalized hash", j))
 				}
 				cur = v
@@ -1465,7 +1529,7 @@ func (g *c16Gen) real(budgetMsg, budgetTx, maxMsgBlocks, maxTxBlocks, nHist int)
 				bm -= cost
 				out := g.emit("c16.msg", dag, 0, "real/"+name+"/"+rec.where)
 				in := c16Input(dag, 0)
-				if out.K != sx.KL || len(out.List) != 9 {
+				if out.K != sx.KL || len(out.List) != 10 {
 					g.c.Fail("c16.msg", in, "C16/real-standalone", "message of a block does not decode standalone")
 				} else if !bytes.Equal(out.List[1].Bytes, rec.hash[:]) || !bytes.Equal(out.List[2].Bytes, rec.norm[:]) {
 					g.c.Fail("c16.msg", in, "C16/real-in-block", "hash inside the block differs from the standalone decode")
@@ -1490,10 +1554,52 @@ func (g *c16Gen) real(budgetMsg, budgetTx, maxMsgBlocks, maxTxBlocks, nHist int)
 	}
 	// transactions with mutated headers and grafted synthetic in_msg
 	for _, tx := range txDags {
-		for k := 0; k < 3; k++ {
+		for k := 0; k < 5; k++ {
 			d := c16CloneDag(tx)
 			label := ""
-			switch r.Intn(5) {
+			switch r.Intn(8) {
+			case 5: // TransactionDescr cell: flip a bit / truncate
+				if len(d[0].Refs) >= 3 {
+					c3 := d[0].Refs[2]
+					if n := len(d[c3].Bits); n > 0 {
+						if r.Bool() {
+							d[c3].Bits = c16FlipBit(d[c3].Bits, r.Intn(minInt(n, 12)))
+						} else if r.Bool() {
+							d[c3].Bits = c16FlipBit(d[c3].Bits, r.Intn(n))
+						} else {
+							d[c3].Bits = d[c3].Bits[:r.Intn(n)]
+						}
+					}
+				}
+				label = "descr"
+			case 6: // a cell below the description (compute phase details, action phase)
+				if len(d[0].Refs) >= 3 {
+					c3 := d[0].Refs[2]
+					if len(d[c3].Refs) > 0 {
+						x := d[c3].Refs[r.Intn(len(d[c3].Refs))]
+						if n := len(d[x].Bits); n > 0 {
+							if r.Bool() {
+								d[x].Bits = c16FlipBit(d[x].Bits, r.Intn(n))
+							} else {
+								d[x].Bits = d[x].Bits[:r.Intn(n)]
+							}
+						}
+					}
+				}
+				label = "descr-sub"
+			case 7: // the in_msg / out_msgs cell and the out_msgs dictionary
+				c1 := d[0].Refs[0]
+				if r.Bool() || len(d[c1].Refs) == 0 {
+					if n := len(d[c1].Bits); n > 0 {
+						d[c1].Bits = c16FlipBit(d[c1].Bits, r.Intn(n))
+					}
+				} else {
+					x := d[c1].Refs[len(d[c1].Refs)-1]
+					if n := len(d[x].Bits); n > 0 {
+						d[x].Bits = c16FlipBit(d[x].Bits, r.Intn(minInt(n, 20)))
+					}
+				}
+				label = "msgs"
 			case 0:
 				d[0].Bits = c16FlipBit(d[0].Bits, r.Intn(4))
 				label = "tag"
@@ -1552,11 +1658,15 @@ func c16Op(code int, args ...sx.V) sx.V { return sx.L(append([]sx.V{sx.Nat(code)
 
 // c16Ops: decodes of the given sources interleaved with 0..2 observations each
 // (either order), copies, and caller-side overwriting of returned slices.
-func c16Ops(r *prng.R, nsrc int, n int) ([]sx.V, string) {
+func c16Ops(r *prng.R, nsrc int, n int, withDest bool) ([]sx.V, string) {
 	var ops []sx.V
 	decodes, muts, copies := 0, 0, 0
 	observe := func() {
 		for k := r.Intn(3); k > 0; k-- {
+			if withDest && r.Chance(25) {
+				ops = append(ops, c16Op(4))
+				continue
+			}
 			switch r.Intn(5) {
 			case 0, 1:
 				ops = append(ops, c16Op(1))
@@ -1626,7 +1736,7 @@ func (g *c16Gen) txHistories(txDags [][]Node, n int) {
 		if i < len(fixed) {
 			ops, class = fixed[i], fmt.Sprintf("fixed%d", i)
 		} else {
-			ops, class = c16Ops(r, k, 2+r.Intn(3))
+			ops, class = c16Ops(r, k, 2+r.Intn(3), false)
 		}
 		g.emitHist("c16.htx", srcs, ops, "hist/"+fam+"/"+class)
 	}
@@ -1656,13 +1766,58 @@ func (g *c16Gen) msgHistories(n int) {
 			}
 			srcs = append(srcs, d)
 		}
-		ops, class := c16Ops(r, k, 2+r.Intn(3))
+		ops, class := c16Ops(r, k, 2+r.Intn(3), true)
+		ops = append(ops, c16Op(4))
 		g.emitHist("c16.hmsg", srcs, ops, "hist/"+fam+"/"+class)
+	}
+}
+
+// a library cell as the root, resolved to a synthetic message (or to junk, or
+// to another library cell, whose bits are then read as a message)
+func (g *c16Gen) libraryRoots(n int) {
+	r := g.c.R
+	for i := 0; i < n; i++ {
+		pool := c16Pool(r)
+		if len(pool) > 0 && pool[0].Special { // keep exotic cells out of decoder positions other than the root
+			pool = nil
+		}
+		sp := c16RandSpec(r, len(pool))
+		sp.Extra, sp.Init.Lib = 0, 0
+		msg, used, ok := c16Build(r, sp, pool)
+		if !ok {
+			continue
+		}
+		label := fmt.Sprintf("lib/k%d/%s", sp.Kind, used)
+		switch r.Intn(8) {
+		case 0:
+			msg, label = []Node{{Bits: randBits(r, r.Intn(60))}}, "lib/junk"
+		case 1:
+			msg, label = []Node{c16LibraryNode(r)}, "lib/library"
+		}
+		// node 0: the library root; the message follows (not referenced by it)
+		dag := []Node{c16LibraryNode(r)}
+		for _, nd := range msg {
+			m := Node{Special: nd.Special, Mask: nd.Mask, Bits: nd.Bits}
+			for _, x := range nd.Refs {
+				m.Refs = append(m.Refs, x+1)
+			}
+			dag = append(dag, m)
+		}
+		root := 0
+		if r.Chance(15) {
+			root, label = 1, label+"/plainroot" // not a library cell: the resolver must not be asked
+		}
+		in := sx.L(dagSx(dag), sx.Nat(root), sx.Nat(1))
+		out := g.c.Emit("c16.lib", in, label)
+		if out.Head() == "oracle-fail" {
+			g.c.Fail("c16.lib", in, "C16/"+out.List[1].Atom, out.List[1].Atom)
+		}
 	}
 }
 
 func genC16(c *Ctx) {
 	g := &c16Gen{c: c}
+	g.libraryRoots(c.Scale(16, 400))
 	g.synthetic(c.Scale(45, 2500))
 	g.special(c.Scale(40, 800))
 	g.real(c.Scale(110, 6000), c.Scale(160, 12000), c.Scale(60, 1500), c.Scale(120, 3000), c.Scale(10, 300))
